@@ -11,6 +11,7 @@
 from __future__ import annotations
 
 import gc
+import os
 import shutil
 import tempfile
 
@@ -334,3 +335,82 @@ class C14(Check):
             if alive:
                 r['probes']['interrupt-with-workers-executing'] = 1
         return r
+
+
+def _c14_batch_extra(self, tier):
+    """S3: real SIGINT delivery (killpg) - single and double - at a controlled resting point of a real
+    run: every worker is parked inside run() (marker files), so nothing depends on timing except the
+    generous watchdogs."""
+    import json
+    import signal
+    import subprocess
+    import sys
+    import time
+    from . import REPO_DIR, VERIF_DIR
+    from .driver import scratch_root
+    vs = []
+    samples = []
+    n = 0
+    for backend in ('fork', 'spawn'):
+        for mode in ('single', 'double'):
+            d = tempfile.mkdtemp(prefix='simlab-c14real-', dir=scratch_root())
+            try:
+                env = dict(os.environ)
+                env['PYTHONPATH'] = REPO_DIR
+                p = subprocess.Popen([sys.executable, os.path.join(VERIF_DIR, 'simlab', 'realsigint.py'), backend, d],
+                                     stdout=subprocess.PIPE, stderr=subprocess.DEVNULL, text=True, env=env, start_new_session=True)
+                t0 = time.time()
+                while time.time() - t0 < 60 and not all(os.path.exists(os.path.join(d, f'started{i}')) for i in range(3)):
+                    time.sleep(0.01)
+                if time.time() - t0 >= 60:
+                    p.kill()
+                    vs.append(O.V('C14', 'real-probe-timeout', f'real {backend} run never reached the resting point', backend=backend))
+                    continue
+                os.killpg(p.pid, signal.SIGINT)
+                t_int = time.time()
+                if mode == 'double':
+                    time.sleep(0.4)
+                    os.killpg(p.pid, signal.SIGINT)
+                else:
+                    time.sleep(0.3)
+                    open(os.path.join(d, 'release'), 'w').close()
+                try:
+                    out, _ = p.communicate(timeout=90)
+                except subprocess.TimeoutExpired:
+                    try:
+                        os.killpg(p.pid, signal.SIGKILL)
+                    except ProcessLookupError:
+                        pass
+                    vs.append(O.V('C14', 'real-no-termination', f'real {backend} run did not end within 90 s of a {mode} interrupt', backend=backend, mode=mode))
+                    continue
+                took = time.time() - t_int
+                line = [x for x in out.splitlines() if x.startswith('SIGPROBE ')]
+                if not line:
+                    vs.append(O.V('C14', 'real-probe-failed', f'real {backend} {mode} run gave no result', backend=backend, mode=mode))
+                    continue
+                n += 1
+                info = json.loads(line[0][9:])
+                done = sum(1 for i in range(3) if os.path.exists(os.path.join(d, f'done{i}')))
+                samples.append({'real_interrupt': mode, 'backend': backend, 'outcome': info['outcome'], 'tasks_finished': done,
+                                'is_cached': info['is_cached'], 'seconds_after_interrupt': round(took, 2)})
+                if info['outcome'] != 'KeyboardInterrupt':
+                    vs.append(O.V('C14', 'real-wrong-outcome', f'real {backend} run, {mode} SIGINT with all workers inside run(): run_tasks '
+                                  f'ended with {info["outcome"]}', backend=backend, mode=mode))
+                if mode == 'single':
+                    if done != 3 or not all(info['is_cached']):
+                        vs.append(O.V('C14', 'real-not-drained', f'real {backend} run, single SIGINT: {done}/3 executing tasks finished, '
+                                      f'is_cached={info["is_cached"]}', backend=backend))
+                else:
+                    time.sleep(0.5)
+                    done_later = sum(1 for i in range(3) if os.path.exists(os.path.join(d, f'done{i}')))
+                    if done_later:
+                        vs.append(O.V('C14', 'real-not-terminated', f'real {backend} run, double SIGINT: {done_later}/3 tasks still finished '
+                                      f'(they should have been terminated at once)', backend=backend))
+                    if took > 20:
+                        vs.append(O.V('C14', 'real-slow-stop', f'real {backend} run, double SIGINT: run_tasks needed {took:.1f} s', backend=backend))
+            finally:
+                shutil.rmtree(d, ignore_errors=True)
+    return vs, {'real_interrupt_runs': n, 'real_interrupt_samples': samples}
+
+
+C14.batch_extra = _c14_batch_extra
